@@ -112,6 +112,7 @@ func Load(repoDir string) (*Prog, error) {
 	sort.Slice(p.allFns, func(i, j int) bool { return FnName(p.allFns[i]) < FnName(p.allFns[j]) })
 	TheProg = p
 	staticSites = nil
+	boundRecvs = nil
 	return p, nil
 }
 
@@ -121,6 +122,15 @@ var TheProg *Prog
 
 var staticSites map[*ssa.Function][]ssa.CallInstruction
 
+// boundRecvs: for a method used as a method value (x.m handed over as a function), the receivers bound there.
+var boundRecvs map[*ssa.Function][]ssa.Value
+
+// BoundReceiversOf: the receiver values of the method values of fn created in the module.
+func BoundReceiversOf(fn *ssa.Function) []ssa.Value {
+	StaticSitesOf(fn)
+	return boundRecvs[fn]
+}
+
 // StaticSitesOf: the static call sites (call, go, defer) of fn in the module's source functions.
 func StaticSitesOf(fn *ssa.Function) []ssa.CallInstruction {
 	if TheProg == nil {
@@ -128,12 +138,20 @@ func StaticSitesOf(fn *ssa.Function) []ssa.CallInstruction {
 	}
 	if staticSites == nil {
 		staticSites = map[*ssa.Function][]ssa.CallInstruction{}
+		boundRecvs = map[*ssa.Function][]ssa.Value{}
 		for _, f := range TheProg.allFns {
 			for _, b := range f.Blocks {
 				for _, in := range b.Instrs {
 					if ci, ok := in.(ssa.CallInstruction); ok {
 						if g := ci.Common().StaticCallee(); g != nil {
 							staticSites[g] = append(staticSites[g], ci)
+						}
+					}
+					if mc, ok := in.(*ssa.MakeClosure); ok && len(mc.Bindings) == 1 {
+						if w, _ := mc.Fn.(*ssa.Function); w != nil && w.Synthetic != "" && strings.HasSuffix(w.Name(), "$bound") {
+							if t := FuncValueTarget(mc); t != nil && t != w {
+								boundRecvs[t] = append(boundRecvs[t], mc.Bindings[0])
+							}
 						}
 					}
 				}
@@ -298,9 +316,43 @@ func Short(s string) string {
 
 // WithClosures returns fn and all functions nested in it.
 func WithClosures(fn *ssa.Function) []*ssa.Function {
+	return withClosures(fn, map[*ssa.Function]bool{})
+}
+
+// withClosures: fn, the functions nested in it, and - like a closure literal - the methods of the module that fn
+// uses as function values through a method value of a helper object it creates (`m.Range(w.visit)`): a callback
+// written as a method of a small context type instead of a closure is part of fn's body all the same.
+func withClosures(fn *ssa.Function, seen map[*ssa.Function]bool) []*ssa.Function {
+	if fn == nil || seen[fn] {
+		return nil
+	}
+	seen[fn] = true
 	out := []*ssa.Function{fn}
 	for _, a := range fn.AnonFuncs {
-		out = append(out, WithClosures(a)...)
+		out = append(out, withClosures(a, seen)...)
+	}
+	for _, b := range fn.Blocks {
+		for _, in := range b.Instrs {
+			mc, ok := in.(*ssa.MakeClosure)
+			if !ok {
+				continue
+			}
+			w, _ := mc.Fn.(*ssa.Function)
+			if w == nil || w.Synthetic == "" || !strings.HasSuffix(w.Name(), "$bound") || len(mc.Bindings) != 1 {
+				continue
+			}
+			// only method values of an object created in this function (a context struct), not of long-lived objects
+			if _, isAlloc := Strip(mc.Bindings[0]).(*ssa.Alloc); !isAlloc {
+				if u, isLoad := mc.Bindings[0].(*ssa.UnOp); !isLoad {
+					continue
+				} else if _, isAlloc2 := u.X.(*ssa.Alloc); !isAlloc2 {
+					continue
+				}
+			}
+			if t := FuncValueTarget(mc); t != nil && t != w && TheProg != nil && TheProg.InModule(t) {
+				out = append(out, withClosures(t, seen)...)
+			}
+		}
 	}
 	return out
 }
